@@ -4,8 +4,9 @@
 //
 // case line:  pipe S:<pipeline> S:<split> A:<a> A:<b> A:<c>
 //   pipeline: functor names joined with '*' and parentheses, exactly as written in the table below
-//   split   : how the operands are supplied: "3" = f(a,b,c), "1+2" = f(a)(b,c), "1+1+1" = f(a)(b)(c), ...
-//   -> fn <functor result> | view <direct view call>
+//   split   : how the operands are supplied: "3" = f(a,b,c), "1+2" = f(a)(b,c), "1+1+1" = f(a)(b)(c), ...;
+//             a split may supply ONE operand more than the pipeline consumes, in the call that completes it
+//   -> fn <functor result, or "tuple r ;; rest" when operands are left over> | view <direct view call>
 //      alias L:<ids>  -> ok <index::generate_alias(ids)>
 #include "nmtools/array/functional.hpp"
 #include "nmtools/array/functional/transpose.hpp"
@@ -29,25 +30,52 @@ namespace cb = nmtools::combinator;
 namespace view = nmtools::view;
 using namespace vd;
 
-template <int N, typename F, typename A>
-static std::string apply_split(const F& f, const std::string& s, const A& a, const A& b, const A& c) {
-    if constexpr (N == 1) {
-        if (s == "1") return show(f(a));
-    } else if constexpr (N == 2) {
-        if (s == "2") return show(f(a, b));
-        if (s == "1+1") return show(f(a)(b));
-    } else {
-        if (s == "3") return show(f(a, b, c));
-        if (s == "1+2") return show(f(a)(b, c));
-        if (s == "2+1") return show(f(a, b)(c));
-        if (s == "1+1+1") return show(f(a)(b)(c));
-    }
+// ---- operands: five arrays a..e; a split "k1+k2+..." supplies them in successive calls f(k1 operands)(k2 operands)...
+template <typename T> static const auto& deref(const T& t) { if constexpr (std::is_pointer_v<T>) return *t; else return t; }
+
+// a call may return an array/view (complete), or - when more operands were supplied than consumed - the
+// tuple (results..., remaining operands...): printed element by element
+template <typename R> static std::string show_any(const R& r) {
+    if constexpr (meta::is_tuple_v<R>) {
+        std::string o = "tuple";
+        constexpr auto N = meta::len_v<R>;
+        meta::template_for<N>([&](auto i) { o += std::string(decltype(i)::value ? " ;; " : " ") + show(deref(nm::at(r, i))); });
+        return o;
+    } else return show(r);
+}
+
+template <size_t Off, typename F, typename Ops, size_t... I>
+static auto call_k(const F& f, const Ops& o, std::index_sequence<I...>) { return f(*o[Off + I]...); }
+
+template <size_t Off, typename F, typename Ops, size_t K, size_t... Rest>
+static std::string apply_chunks(const F& f, const Ops& o, std::index_sequence<K, Rest...>) {
+    auto g = call_k<Off>(f, o, std::make_index_sequence<K>{});
+    if constexpr (sizeof...(Rest) == 0) return show_any(g);
+    else return apply_chunks<Off + K>(g, o, std::index_sequence<Rest...>{});
+}
+
+// every composition of 1..5 operands: (total, last chunk, text, chunks...)
+#define SPLITS(S) \
+  S(1,1,"1",1) \
+  S(2,2,"2",2) S(2,1,"1+1",1,1) \
+  S(3,3,"3",3) S(3,2,"1+2",1,2) S(3,1,"2+1",2,1) S(3,1,"1+1+1",1,1,1) \
+  S(4,4,"4",4) S(4,3,"1+3",1,3) S(4,2,"2+2",2,2) S(4,1,"3+1",3,1) S(4,2,"1+1+2",1,1,2) S(4,1,"1+2+1",1,2,1) S(4,1,"2+1+1",2,1,1) S(4,1,"1+1+1+1",1,1,1,1) \
+  S(5,5,"5",5) S(5,4,"1+4",1,4) S(5,3,"2+3",2,3) S(5,2,"3+2",3,2) S(5,3,"1+1+3",1,1,3) S(5,2,"1+2+2",1,2,2) S(5,2,"2+1+2",2,1,2) S(5,2,"1+1+1+2",1,1,1,2)
+
+// a split is applicable to a pipeline of arity N when it supplies exactly N operands, or N+1 with the surplus
+// operand arriving in the SAME call that completes the pipeline (last chunk >= 2): "remaining operands passed on"
+template <int N, typename F, typename Ops>
+static std::string apply_split(const F& f, const std::string& s, const Ops& o) {
+#define S(total, last, text, ...) if constexpr (total == N || (total == N + 1 && last >= 2)) { \
+        if (s == text) return apply_chunks<0>(f, o, std::index_sequence<__VA_ARGS__>{}); }
+    SPLITS(S)
+#undef S
     return "unsupported";
 }
 
 static const auto AX = nmtools_array{1, 0};
 
-// name, arity, functor expression, the corresponding direct view call on (a, b, c)
+// name, arity, functor expression, the corresponding direct view call on (a, b, c, d)
 #define PIPES(X) \
   X("tr",      1, fn::transpose,                          view::transpose(a)) \
   X("trx",     1, fn::transpose[AX],                      view::transpose(a, AX)) \
@@ -73,14 +101,33 @@ static const auto AX = nmtools_array{1, 0};
   X("sub*swap", 2, fn::subtract * cb::swap,               view::subtract(b, a)) \
   X("mul*dup",  1, fn::multiply * cb::dup,                view::multiply(a, a)) \
   X("(sub*sub)*dig2", 3, (fn::subtract * fn::subtract) * cb::dig2,  view::subtract(view::subtract(c, a), b)) \
-  X("sub*(sub*bury2)", 3, fn::subtract * (fn::subtract * cb::bury2), view::subtract(view::subtract(b, c), a))
+  X("sub*(sub*bury2)", 3, fn::subtract * (fn::subtract * cb::bury2), view::subtract(view::subtract(b, c), a)) \
+  /* pipelines ENDING in a combinator that is followed by non-commutative functors and by operands the combinator */ \
+  /* does not consume (they must be passed on behind the combinator's results) */ \
+  X("(sub*sub)*swap", 3, (fn::subtract * fn::subtract) * cb::swap,   view::subtract(view::subtract(b, a), c)) \
+  X("sub*(mm*swap)",  3, fn::subtract * (fn::matmul * cb::swap),     view::subtract(view::matmul(b, a), c)) \
+  X("(sub*sub)*dig1", 3, (fn::subtract * fn::subtract) * cb::dig1,   view::subtract(view::subtract(b, a), c)) \
+  X("sub*(mm*bury1)", 3, fn::subtract * (fn::matmul * cb::bury1),    view::subtract(view::matmul(b, a), c)) \
+  X("sub*(mm*dup)",   2, fn::subtract * (fn::matmul * cb::dup),      view::subtract(view::matmul(a, a), b)) \
+  X("(sub*mm)*dup",   2, (fn::subtract * fn::matmul) * cb::dup,      view::subtract(view::matmul(a, a), b)) \
+  X("((sub*sub)*mm)*dig2", 4, ((fn::subtract * fn::subtract) * fn::matmul) * cb::dig2, view::subtract(view::subtract(view::matmul(c, a), b), d)) \
+  X("sub*(sub*(mm*bury2))", 4, fn::subtract * (fn::subtract * (fn::matmul * cb::bury2)), view::subtract(view::subtract(view::matmul(b, c), a), d)) \
+  X("((sub*sub)*sub)*dig3", 4, ((fn::subtract * fn::subtract) * fn::subtract) * cb::dig_n<3>, view::subtract(view::subtract(view::subtract(d, a), b), c)) \
+  X("(sub*sub)*(mm*bury3)", 4, (fn::subtract * fn::subtract) * (fn::matmul * cb::bury_n<3>), view::subtract(view::subtract(view::matmul(b, c), d), a)) \
+  /* a combinator in the MIDDLE of the chain, again with operands left over behind it (swap / dig2 in the middle, fed with a */ \
+  /* view result, are rejected at compile time by the library itself; matmul over a ufunc view traps in view::matmul */ \
+  /* itself on run-time shaped arrays - a view defect, not a functor one: neither is in the table) */ \
+  X("((sub*mm)*dup)*tr",    2, ((fn::subtract * fn::matmul) * cb::dup) * fn::transpose,    view::subtract(view::matmul(view::transpose(a), view::transpose(a)), b))
 
 static std::string handle(const Case& c) {
     if (c.op == "pipe") {
+        // pipe S:<pipeline> S:<split> A:a A:b A:c A:d A:e
         std::string p = c.args[0].raw.substr(2), split = c.args[1].raw.substr(2);
         auto a = make_array(c.args[2]); auto b = make_array(c.args[3]); auto cc = make_array(c.args[4]);
+        auto d = make_array(c.args[5]); auto e = make_array(c.args[6]);
+        std::array<const decltype(a)*, 5> ops{&a, &b, &cc, &d, &e};
 #define X(name, N, fexpr, vexpr) if (p == name) { const auto& c = cc; auto f = fexpr; \
-            std::string r = apply_split<N>(f, split, a, b, c); if (r == "unsupported") return r; \
+            std::string r = apply_split<N>(f, split, ops); if (r == "unsupported") return r; \
             return "fn " + r + " | view " + show(vexpr); }
         PIPES(X)
 #undef X
